@@ -41,6 +41,9 @@ Proof. intros. destruct (encode_uint_nonempty w x) as (b & t & E). eapply len_po
 Lemma encode_header_len_pos : forall l pl, 1 <= len (encode_header l pl).
 Proof. intros. destruct (encode_header_nonempty l pl) as (b & t & E). eapply len_pos_of_cons; eassumption. Qed.
 
+Lemma encode_header_length_pos : forall l pl, (1 <= length (encode_header l pl))%nat.
+Proof. intros. destruct (encode_header_nonempty l pl) as (b & t & ->). cbn. lia. Qed.
+
 Lemma ip_of_bytes_wf : forall ip, wf_ip ip -> ip_of_bytes (ip_octets ip) = Ok ip.
 Proof.
   intros [o|o]; cbn [wf_ip ip_octets]; unfold ip_of_bytes.
@@ -649,7 +652,9 @@ Section RpcProofs.
       unfold hdr. rewrite decode_header_prefix by (assumption || exact Hlt). reflexivity.
     - rewrite firstn_app. rewrite firstn_all2 by lia.
       unfold hdr. rewrite decode_header_encode_short; [reflexivity|assumption|].
-      rewrite app_length in Hk. unfold len. rewrite firstn_length. fold hdr. rewrite Nat.min_l by lia. lia.
+      rewrite app_length in Hk. fold hdr.
+      assert (Hl : (length (firstn (k - length hdr) body) < length body)%nat) by (rewrite firstn_length; lia).
+      unfold len. lia.
   Qed.
 
   (* the outer item is not a list *)
@@ -698,7 +703,7 @@ Section RpcProofs.
     rewrite decode_bytes_encode by (try assumption; rewrite two64; lia). cbn [bind].
     rewrite request_id_ok by assumption. cbn [bind N.eqb Pos.eqb].
     rewrite <- (app_nil_r (encode_u64_list ds)).
-    rewrite !len_app in H64. unfold encode_u64_list at 2 3, encode_list in H64. rewrite len_app in H64.
+    rewrite !len_app in H64. unfold encode_u64_list, encode_list in H64. rewrite !len_app in H64.
     rewrite decode_u64_list_encode by (try assumption; lia). cbn [bind].
     rewrite exists_gt_existsb by assumption. reflexivity.
   Qed.
@@ -746,7 +751,8 @@ Section RpcProofs.
     intros f id s o Hok Hid Hs Hoo H64 Hlen. rewrite pong_prefix by assumption.
     destruct (ip_of_bytes_cases o) as [[ip ->]| E].
     - cbn [bind]. reflexivity.
-    - exfalso. unfold ip_of_bytes in E. destruct Hlen as [-> | ->]; cbn [Nat.eqb] in E; [discriminate|].
+    - exfalso. unfold ip_of_bytes in E. destruct Hlen as [Hl4|Hl16]; [rewrite Hl4 in E|rewrite Hl16 in E];
+        cbn [Nat.eqb] in E; [discriminate|].
       destruct (is_loopback6 o); [discriminate|]. destruct (to_ipv4 o); discriminate.
   Qed.
 
@@ -769,7 +775,8 @@ Section RpcProofs.
       destruct (Nat.ltb_spec 2 (length (be_trimmed 8 p))) as [|Hle]; [reflexivity|].
       exfalso. assert (256 ^ len (be_trimmed 8 p) <= 256 ^ 2) by (apply N.pow_le_mono_r; unfold len; lia).
       change (256 ^ 2) with 65536 in *. lia.
-    - exfalso. unfold ip_of_bytes in E. destruct Hlen as [-> | ->]; cbn [Nat.eqb] in E; [discriminate|].
+    - exfalso. unfold ip_of_bytes in E. destruct Hlen as [Hl4|Hl16]; [rewrite Hl4 in E|rewrite Hl16 in E];
+        cbn [Nat.eqb] in E; [discriminate|].
       destruct (is_loopback6 o); [discriminate|]. destruct (to_ipv4 o); discriminate.
   Qed.
 
@@ -782,7 +789,7 @@ Section RpcProofs.
   Proof.
     intros Hr Hl. induction good as [|e es IH]; intros c tail fuel Hc Hbad Hfuel.
     - cbn [map concat app] in *.
-      pose proof (encode_header_len_pos true (len c)) as Hpos. unfold len in Hpos.
+      pose proof (encode_header_length_pos true (len c)) as Hpos.
       rewrite !app_length in Hfuel. destruct fuel as [|f]; [lia|].
       destruct ((encode_header true (len c) ++ c) ++ tail) as [|b0 t0] eqn:Epl.
       { exfalso. apply (f_equal (@length N)) in Epl. rewrite !app_length in Epl. cbn in Epl. lia. }
